@@ -64,10 +64,16 @@ def doc_target(key):
     return os.path.join(vlib.TARGET, "c20doc-" + key)
 
 
-def rustdoc_json(key, feats, timeout=1500):
-    """run rustdoc (nightly, offline) on /repo with the feature set; output under /verif/.cache only"""
-    tdir = doc_target(key)
+def rustdoc_json(key, feats, timeout=1500, target_key=None):
+    """run rustdoc (nightly, offline) on /repo with the feature set; output under /verif/.cache only.
+    The previous JSON is removed first so that what is read was written by this invocation."""
+    tdir = doc_target(target_key or key)
     os.makedirs(tdir, exist_ok=True)
+    path = os.path.join(tdir, "doc", "sea_query.json")
+    try:
+        os.remove(path)
+    except FileNotFoundError:
+        pass
     env = dict(vlib.ENV)
     env["CARGO_TARGET_DIR"] = tdir
     cmd = ["cargo", "+nightly", "rustdoc", "--offline", "--quiet", "--lib", "--manifest-path",
@@ -77,7 +83,6 @@ def rustdoc_json(key, feats, timeout=1500):
     cmd += ["--", "-Z", "unstable-options", "--output-format", "json", "--document-private-items",
             "--cap-lints", "allow"]
     rc, out = vlib.sh(cmd, cwd=REPO, timeout=timeout, env=env)
-    path = os.path.join(tdir, "doc", "sea_query.json")
     if rc != 0 or not os.path.exists(path):
         raise vlib.BuildError("rustdoc JSON (%s) failed:\n%s" % (key, out[-3000:]))
     return path
@@ -475,8 +480,8 @@ def show_ty(t, g=None):
     return "%s<%s>" % (names[k], show_ty(t[1], g))
 
 
-def load_graph(key, feats, json_path=None):
-    json_path = json_path or rustdoc_json(key, feats)
+def load_graph(key, feats, json_path=None, target_key=None):
+    json_path = json_path or rustdoc_json(key, feats, target_key=target_key)
     doc = json.load(open(json_path))
     return Translator(doc, key, feats).run()
 
@@ -583,17 +588,28 @@ def to_rust(g):
     return "\n".join(rows) + "\n"
 
 
-def harness_build(g, target_key=None, demo=False, timeout=1500):
+def prepare_lock():
+    """harness_c20/Cargo.lock always starts from /repo's (same dependency versions as the crate under
+    test); resolved once here so that parallel builds do not rewrite it"""
+    dst = os.path.join(HARNESS_DIR, "Cargo.lock")
+    tmp = dst + ".tmp%d" % os.getpid()
+    with open(os.path.join(REPO, "Cargo.lock"), "rb") as f:
+        data = f.read()
+    with open(tmp, "wb") as f:
+        f.write(data)
+    os.replace(tmp, dst)
+    vlib.sh(["cargo", "metadata", "--offline", "--format-version", "1"], cwd=HARNESS_DIR, timeout=300)
+
+
+def harness_build(g, target_key=None, demo=False, timeout=1500, lock_ready=False):
     """build harness_c20 against /repo with g's feature set and run it: {node index: (send, sync)}"""
     import regen
     cdir = os.path.join(CACHE, g.key)
     os.makedirs(cdir, exist_ok=True)
     types_rs = os.path.join(cdir, "types.rs")
     regen.write_if_changed(types_rs, to_rust(g))
-    try:
-        subprocess.run(["cp", os.path.join(REPO, "Cargo.lock"), os.path.join(HARNESS_DIR, "Cargo.lock")], check=True)
-    except Exception:
-        pass
+    if not lock_ready:
+        prepare_lock()
     tdir = os.path.join(vlib.TARGET, "c20-" + (target_key or g.key))
     env = dict(vlib.ENV)
     env["CARGO_TARGET_DIR"] = tdir
@@ -609,6 +625,8 @@ def harness_build(g, target_key=None, demo=False, timeout=1500):
     rc, out = vlib.sh([exe], timeout=120, env=env)
     if rc != 0:
         raise vlib.BuildError("harness_c20 run (%s) failed:\n%s" % (g.key, out[-2000:]))
+    if "SELFTEST ok" not in out:
+        raise vlib.BuildError("harness_c20 self-test of the Send/Sync probe failed (%s):\n%s" % (g.key, out[-500:]))
     table, demo_line = {}, None
     for line in out.splitlines():
         f = line.split(" ")
@@ -636,7 +654,7 @@ def coq_verdicts(g, workdir, generated_module=None, timeout=600):
         body = to_coq(g)
         gname = "graph"
     body += "\nGoal stable %s (solve %s). Proof. vm_compute. reflexivity. Qed.\n" % (gname, gname)
-    body += "Eval vm_compute in (solve %s).\n" % gname
+    body += "Set Printing Depth 1000000.\nSet Printing Width 200.\nEval vm_compute in (solve %s).\n" % gname
     with open(path, "w") as f:
         f.write(body)
     rc, out = vlib.sh(["coqc", "-Q", vlib.COQ, "SQV", "-w", "-notation-overridden", path], cwd=workdir, timeout=timeout)
@@ -763,8 +781,9 @@ def regen_generated(graphs=None):
 
 def setup():
     gs = regen_generated()
+    prepare_lock()
     for key, g in gs.items():
-        harness_build(g, demo=(key == "ts-all"))
+        harness_build(g, demo=(key == "ts-all"), lock_ready=True)
     return gs
 
 
